@@ -1,9 +1,10 @@
 SPECIFICATION Spec
 CONSTANTS SeedLeaves = 2
- MaxLeaves = 3
+ MaxLeaves = 4
  PropMembers = 2
  MaxMembers = 3
- MaxNnfSize = 9
+ MaxNnfSize = 7
+ MaxNum = 4
  Rich = FALSE
 INVARIANT TypeInv
 INVARIANT PolyPreserved
